@@ -26,7 +26,7 @@ func recordBatchSize(msgs ...Message) (size int32) {
 
 	for i := range msgs {
 		msg := &msgs[i]
-		msz := recordSize(msg, msg.Time.Sub(baseTime), int64(i))
+		msz := recordSize(msg, timestampDelta(baseTime, msg.Time), int64(i))
 		size += int32(msz + varIntLen(int64(msz)))
 	}
 
@@ -95,9 +95,17 @@ func (r *recordBatch) writeTo(wb *writeBuffer) {
 	}
 }
 
-func recordSize(msg *Message, timestampDelta time.Duration, offsetDelta int64) int {
+// timestampDelta returns the difference between the millisecond timestamps of
+// t and of the first message of a record batch. It has to be computed on the
+// millisecond values: truncating the difference of the times instead is off by
+// one millisecond whenever the sub-millisecond parts carry over.
+func timestampDelta(baseTime, t time.Time) int64 {
+	return timestamp(t) - timestamp(baseTime)
+}
+
+func recordSize(msg *Message, timestampDelta int64, offsetDelta int64) int {
 	return 1 + // attributes
-		varIntLen(int64(milliseconds(timestampDelta))) +
+		varIntLen(timestampDelta) +
 		varIntLen(offsetDelta) +
 		varBytesLen(msg.Key) +
 		varBytesLen(msg.Value) +
